@@ -44,6 +44,19 @@ func withNet(name string, f func() (string, []string)) (string, []string) {
 	return f()
 }
 
+func init() {
+	reg("net.with", Full, func(a []string) (string, []string) {
+		if len(a) < 2 {
+			return "bad-op", nil
+		}
+		spec, ok := ops[a[1]]
+		if !ok || a[1] == "net.with" {
+			return "bad-op", nil
+		}
+		return withNet(a[0], func() (string, []string) { return spec.fn(a[2:]) })
+	})
+}
+
 // the standard scriptPubKey of a format, written out by hand (harness-side reference)
 func refScript(format string, h []byte) []byte {
 	switch format {
